@@ -320,6 +320,39 @@ def run(tier="quick", seed=0, only=None):
                         {"kernel": kn, "x": tl(xfix), "lengthscale": worst_ls, "call": call})
                 guarded(key, scan, {"kernel": kn, "x": tl(xfix)})
 
+        # deterministic scan: distance-based kernels on inputs FAR from the origin (clustered within one unit, with a duplicate and 1e-9 / 1e-6 neighbours, shifted by a
+        # large offset -- years, millimetres, timestamps): the Gram matrix must stay symmetric PSD up to rounding and agree with the matrix computed from explicit
+        # pairwise differences (the quadratic expansion of the squared distance cancels catastrophically unless the inputs are centred first)
+        xoff = torch.cat([xfix[:, :2], xfix[0:1, :2] + 0.5, xfix[1:2, :2] * 0.3], -2)
+        for off in ((5e4,) if not thorough else (2e3, 5e4, 1e6)):
+            for kn, kf, ref in (("RBFKernel", lambda: GK.RBFKernel(), lambda r2: torch.exp(-0.5 * r2)),
+                                ("RQKernel", lambda: GK.RQKernel(), None),
+                                ("MaternKernel/nu2.5", lambda: GK.MaternKernel(nu=2.5), lambda r2: (1 + (5 * r2).sqrt() + 5 * r2 / 3) * torch.exp(-(5 * r2).sqrt())),
+                                ("ScaleKernel(RBFKernel)/ard", lambda: GK.ScaleKernel(GK.RBFKernel(ard_num_dims=2)), None)):
+                key = f"gram_far_from_origin/{kn}/d2/offset{off:g}"
+
+                def far(kn=kn, kf=kf, ref=ref, off=off, key=key):
+                    k = kf().double()
+                    for m_ in k.modules():
+                        if getattr(m_, "has_lengthscale", False):
+                            m_.lengthscale = 0.6
+                    x = xoff + off
+                    with torch.no_grad():
+                        K = k(x).to_dense()
+                    sc = max(float(K.abs().max()), 1e-300)
+                    me = mineig(K) / sc
+                    asym = float((K - K.transpose(-1, -2)).abs().max()) / sc
+                    detail = f"smallest eigenvalue / scale = {me:.3e}, asymmetry / scale = {asym:.1e}"
+                    ok = me >= -TOL and asym <= TOL
+                    if ref is not None:
+                        diff = (xoff.unsqueeze(-2) - xoff.unsqueeze(-3)) / 0.6
+                        Kr = ref(diff.pow(2).sum(-1))
+                        err = float((K - Kr).abs().max())
+                        ok = ok and err <= 1e-7
+                        detail += f", max |K - K(pairwise differences)| = {err:.2e}"
+                    rec(key, ok, detail + f", tol {TOL:g}", {"kernel": kn, "x": tl(x), "lengthscale": 0.6, "offset": off})
+                guarded(key, far, {"kernel": kn, "offset": off})
+
         for name, dims, build, inputs, batchable in fams:
             for d in dims:
                 for kb in ((), (2,)) if batchable else ((),):
